@@ -314,6 +314,68 @@ static void w_ref_parse(const uint8_t *b, uint64_t n, w_ref *r)
 	r->complete = pos <= n;
 }
 
+/* ------------------------------------------------- big headers
+ * Headers whose fmt chunk carries a long extension the decoder skips (cb_size != 22): the header itself is then
+ * longer than 64 KiB / 16 MiB, so every width an offset or length could be narrowed to is crossed. Full product of
+ *   extension length E (fmt size = 18 + E) x cb_size x format tag x with/without fact chunk x 0 or 2 trailing bytes. */
+static const uint32_t w_big_ext[] = { 0, 2, 24, 254, 256, 258, 4096, 65516, 65518, 65534, 65536, 65538, 65560, 100000, 131072,
+				      16777214, 16777216, 16777240 };
+static const uint32_t w_big_cb[] = { 0, 2, 21, 23, 0xffff };
+static const uint32_t w_big_af[] = { 0xfffe, 1, 3 };
+#define W_NBIG_EXT ((int)(sizeof(w_big_ext) / sizeof(w_big_ext[0])))
+#define W_NBIG (W_NBIG_EXT * 5 * 3 * 2 * 2)
+#define W_BIGMAX (16777240u + 128u)
+typedef struct { uint32_t ext, cb, af; int fact, trail; } w_bigcase;
+static void w_big_get(int i, w_bigcase *c)
+{
+	c->trail = i % 2 ? 2 : 0; i /= 2;
+	c->fact = i % 2; i /= 2;
+	c->af = w_big_af[i % 3]; i /= 3;
+	c->cb = w_big_cb[i % 5]; i /= 5;
+	c->ext = w_big_ext[i];
+}
+static uint8_t w_big_byte(uint64_t i) { return (uint8_t)(1 + i % 251); }	/* never zero: a skipped byte copied instead of zeroed shows */
+/* writes the header + trailing bytes into b (capacity W_BIGMAX), returns the total length */
+static uint64_t w_big_build(const w_bigcase *c, uint8_t *b)
+{
+	uint64_t n = 0;
+	memcpy(b, "RIFF", 4); memcpy(b + 8, "WAVE", 4); memcpy(b + 12, "fmt ", 4); w_put32(b + 16, 18 + c->ext);
+	w_put16(b + 20, c->af); w_put16(b + 22, 2); w_put32(b + 24, 48000); w_put32(b + 28, 48000 * 4); w_put16(b + 32, 4); w_put16(b + 34, 16);
+	w_put16(b + 36, c->cb);
+	n = 38;
+	for (uint64_t i = 0; i < c->ext; i++) b[n + i] = w_big_byte(i);
+	n += c->ext;
+	if (c->fact) { memcpy(b + n, "fact", 4); w_put32(b + n + 4, 4); w_put32(b + n + 8, 1000); n += 12; }
+	memcpy(b + n, "data", 4); w_put32(b + n + 4, 4000); n += 8;
+	w_put32(b + 4, (uint32_t)(n - 8 + 4000));
+	for (int i = 0; i < c->trail; i++) b[n + (uint64_t)i] = 0x5a;
+	return n + (uint64_t)c->trail;
+}
+static char *w_big_replay(const w_bigcase *c)
+{
+	char *s = NULL;
+	if (asprintf(&s, "big=1\next=%u\ncb=%u\naf=%u\nfact=%d\ntrail=%d\n", c->ext, c->cb, c->af, c->fact, c->trail) < 0) _exit(3);
+	return s;
+}
+static int w_big_parse(const char *rp, w_bigcase *c)
+{
+	const char *v;
+	if (!(v = vx_replay_field(rp, "big"))) return 1;
+	c->ext = (uint32_t)strtoul(vx_replay_field(rp, "ext"), NULL, 10); c->cb = (uint32_t)strtoul(vx_replay_field(rp, "cb"), NULL, 10);
+	c->af = (uint32_t)strtoul(vx_replay_field(rp, "af"), NULL, 10); c->fact = atoi(vx_replay_field(rp, "fact")); c->trail = atoi(vx_replay_field(rp, "trail"));
+	return 0;
+}
+/* two areas of W_BIGMAX bytes, each followed by a PROT_NONE page: w_big_in_end / w_big_out_end point one past them */
+static uint8_t *w_big_in_end, *w_big_out_end, *w_big_img;
+static void w_big_setup(void)
+{
+	if (w_big_img) return;
+	w_big_in_end = (uint8_t *)vx_guard_alloc(W_BIGMAX, 1) + W_BIGMAX;
+	w_big_out_end = (uint8_t *)vx_guard_alloc(W_BIGMAX, 1) + W_BIGMAX;
+	w_big_img = malloc(W_BIGMAX);
+	if (!w_big_img) _exit(3);
+}
+
 /* ------------------------------------------------- coarse violation classes
  * One signature per (clause, class): the first case that shows it supplies the minimal
  * input named in the signature, the replay and the message; later cases of the same class
